@@ -257,12 +257,12 @@ class MsgWorld:
         self.released = []
         self.obs = []
         self.pending = None  # step whose effects are being collected
+        self.ident_of = {}
         self.describe(desc)
 
     # -- gamma
     def describe(self, desc):
         self.desc = sorted(tuple(k) for k in desc)
-        self.ident_of = {}
         self.client._init_descriptive_data(g_desc(self.desc))
 
     def make_cb(self, cb):
@@ -637,8 +637,10 @@ def _gen_value(kind, rnd, partial=True, path=None):
         name = rnd.choice(sorted(members))
         return atom('e:%d' % members[name], rnd.choice([name, members[name]]))
     if kind == 'string':
-        n = 12 if path == 'string' else 4
-        v = rnd.choice(['', 'a', 'x y', 'é€', '"q\\', 'abcdefghijkl'])[:n]
+        if path == 'string':   # the only UTF-8 string of the catalogue
+            v = rnd.choice(['', 'a', 'x y', 'é€', '"q\\', 'abcdefghijkl', 'line\nbreak'])
+        else:
+            v = rnd.choice(['', 'a', 'x y', '"q\\', 'abcd', '{"}'])
         return atom('t:' + v, v)
     if kind == 'blob':
         v = rnd.choice([b'', b'\x00', b'\xff\xfe', bytes(rnd.randrange(256) for _ in range(rnd.randint(0, 8)))])
